@@ -11,7 +11,8 @@ namespace TsV
 /-- the `ParseError` / `RustTypeParseError` variants, by kind (messages are not compared) -/
 inductive ErrKind where
   | synError
-  | unsupportedType            -- RustTypeParseError::UnsupportedType (64-bit ints; unparsable serialized_as)
+  | unsupportedType            -- RustTypeParseError::UnsupportedType (64-bit ints; containers without arguments; unparsable serialized_as)
+  | unsupportedItem            -- ParseError::UnsupportedType (tuple struct / variant without fields)
   | unexpectedToken            -- RustTypeParseError::UnexpectedToken
   | unexpectedParameterizedTuple
   | numericLiteral
@@ -52,6 +53,10 @@ def agrees {α} [DecidableEq α] : Outcome α → Outcome α → Bool
   | err e, err f => e == f
   | panic _, panic _ => true
   | _, _ => false
+
+def errKind? {α} : Outcome α → Option ErrKind
+  | err e => some e
+  | _ => none
 
 def isOk {α} : Outcome α → Bool
   | ok _ => true
